@@ -213,9 +213,84 @@ def run_trees(seed, trials):
     return problems
 
 
+def run_big_trees(seed, trials):
+    """very wide maps (55..62 address bits) whose resources sit at addresses with bits above 2**53 AND low bits set, behind a
+    same-width / sparse / dense window at a non-zero base: every translation must be exact integer arithmetic.  Addresses are
+    sampled at the range boundaries (the space cannot be enumerated)."""
+    from amaranth_soc.memory import MemoryMap
+    R = _R()
+    rng = random.Random(seed * 77 + 5)
+    problems = []
+    for t in range(trials):
+        mode = ("same", "sparse", "dense")[t % 3]
+        ldw = rng.choice([8, 16]); law = rng.randint(55, 62)
+        ratio = 1 if mode == "same" else rng.choice([2, 4] if ldw == 8 else [2]); lg = ratio.bit_length() - 1
+        lal = rng.choice([lg, lg + 1]) if mode == "dense" else rng.choice([0, 1])
+        leaf = MemoryMap(addr_width=law, data_width=ldw, alignment=lal)
+        lexp = []
+        nres = rng.randint(1, 3)
+        for k in range(nres):
+            r = R()
+            addr = ((k + 1) << (law - 3)) + (rng.choice([1, 2, 3, 5, (1 << 20) + 1]) << lal)
+            size = rng.choice([1, 2, 3, 4] + ([(1 << 53) + 3] if k == nres - 1 else []))
+            cs, ce = leaf.add_resource(r, name=f"b{k}", size=size, addr=addr)
+            lexp.append((r, (MemoryMap.Name(f"b{k}"),), cs, ce, ldw))
+        pdw = ldw * ratio
+        paw = law + 2 - (lg if mode == "dense" else 0)
+        top = MemoryMap(addr_width=paw, data_width=pdw, alignment=0)
+        r0 = R(); s0, e0 = top.add_resource(r0, name="first", size=rng.choice([1, 3]))
+        wname = rng.choice([None, "win"])
+        desc = f"big seed={seed} trial={t} mode={mode} leaf aw={law} dw={ldw} align={lal} ratio={ratio} window name={wname}"
+        try:
+            s, e, r = top.add_window(leaf, name=wname, sparse=None if mode == "same" else mode == "sparse")
+        except ValueError as ex:
+            problems.append(("valid wide window refused", str(ex)[:120], desc)); continue
+        exp = [(r0, (MemoryMap.Name("first"),), s0, e0, pdw)]
+        for (res, path, cs, ce, cwid) in lexp:
+            exp.append((res, path if wname is None else (MemoryMap.Name(wname),) + path, s + cs // r, s + ce // r, cwid * r))
+        if r != (ratio if mode == "dense" else 1) or (mode != "dense" and s % (1 << law)) or e - s != (1 << law) // r:
+            problems.append(("wide window placement", (s, e, r), desc)); continue
+        got = [(i.resource, i.path, i.start, i.end, i.width) for i in top.all_resources()]
+        if [(id(a),) + tuple(b) for a, *b in got] != [(id(a),) + tuple(b) for a, *b in exp]:
+            problems.append(("all_resources differs from address arithmetic (wide map)", [(tuple(map(tuple, p)), hex(a), hex(b), w) for _, p, a, b, w in got],
+                             [(tuple(map(tuple, p)), hex(a), hex(b), w) for _, p, a, b, w in exp], desc)); continue
+        for (res, p_, a, b, w) in exp:
+            i = top.find_resource(res)
+            if (i.path, i.start, i.end, i.width) != (p_, a, b, w):
+                problems.append(("find_resource differs (wide map)", (hex(a), hex(b), w), (hex(i.start), hex(i.end), i.width), desc)); break
+            for addr in (a - 1, a, a + (b - a) // 2, b - 1, b):
+                if not 0 <= addr < 1 << paw:
+                    continue
+                d = top.decode_address(addr)
+                ex = [res2 for (res2, _, a2, b2, _) in exp if a2 <= addr < b2]
+                if (ex[0] if ex else None) is not d:
+                    problems.append(("decode_address differs from the reported ranges (wide map)", hex(addr), [(hex(a2), hex(b2)) for (_, _, a2, b2, _) in exp], desc)); break
+        # small windows at high addresses with low bits set (window start has more than 53 significant bits): the pattern of
+        # every window must spell exactly the window's address block
+        paw2 = rng.randint(55, 63); dwp = rng.choice([8, 16, 32])
+        top2 = MemoryMap(addr_width=paw2, data_width=dwp)
+        lo = MemoryMap(addr_width=paw2 - 1, data_width=dwp); lo.add_resource(R(), name="x", size=1)
+        top2.add_window(lo, name="lo")
+        for k in range(rng.randint(2, 5)):
+            wa = rng.randint(1, 3)
+            sm = MemoryMap(addr_width=wa, data_width=dwp); sm.add_resource(R(), name="x", size=1)
+            top2.add_window(sm, name=f"r{k}")
+        for (w, name, (ws, we, wr)), (w2, name2, (pat, ratio2)) in zip(top2.windows(), top2.window_patterns()):
+            want = format(ws >> w.addr_width, "b").zfill(paw2 - w.addr_width) + "-" * w.addr_width
+            if w is not w2 or pat != want or ws % (1 << w.addr_width) or we - ws != 1 << w.addr_width:
+                problems.append(("window pattern differs from the window's address block (wide map)", tuple(name), hex(ws), pat, want, desc)); break
+        if len(problems) >= 3:
+            break
+    return problems
+
+
 def check_config(ctx, cfg):
+    if cfg["kind"] == "tree":
+        extra = run_big_trees(cfg["seed"], max(3, cfg["trials"] // 20))
+    else:
+        extra = []
     fn = run_history if cfg["kind"] == "history" else run_trees
-    problems = fn(cfg["seed"], cfg["trials"])
+    problems = extra + fn(cfg["seed"], cfg["trials"])
     clause = "bounded:history-vs-arithmetic-reference" if cfg["kind"] == "history" else "bounded:lookup-vs-address-arithmetic"
     ctx.results.append({"name": f"{clause}@{ctx.key}", "clause": clause, "status": "discharged" if not problems else "failed", "time": 0.0,
                         "replay": {"confirmed": True, "how": "native: random call histories / trees on the real MemoryMap vs plain arithmetic",
